@@ -241,7 +241,8 @@ def run_property(modname: str, tier: str, seed: int, replay: str | None = None) 
     for fname in getattr(mod, 'FOUNDATIONS', []):
         fmod = importlib.import_module(fname)
         frng = random.Random(seed * 31337 + 3)
-        fcases = list(fmod.cases(frng, tier))
+        # a foundation may scope its correspondence run per property: `cases_for(pid, rng, tier)`
+        fcases = list(fmod.cases_for(pid, frng, tier) if hasattr(fmod, 'cases_for') else fmod.cases(frng, tier))
         fres = evaluate_parallel(fmod, fcases)
         for c in fcases:
             c.setdefault('foundation', fname)
